@@ -36,6 +36,13 @@ def main():
     assert rc == 0, out
     meta = dict(property=prop, name=name, needs=needs, repo_head=sh("git -C /repo rev-parse --short HEAD")[1].strip(), ran=[])
     env = dict(os.environ, PYTHONPATH=wt, PATH="/venv/bin:" + os.environ["PATH"], PYTHONDONTWRITEBYTECODE="1")
+    # run the demonstration from a neutral directory: a demo.py sitting next to a `functional_algorithms` package
+    # (the sub-agent's own worktree) would import that one instead of the tree under test
+    ddir = f"/tmp/vs_{name}_demo"
+    shutil.rmtree(ddir, ignore_errors=True)
+    os.makedirs(ddir)
+    shutil.copy(demo, os.path.join(ddir, "demo.py"))
+    demo_src, demo = demo, os.path.join(ddir, "demo.py")
     try:
         rc0, out0 = sh(f"/venv/bin/python {demo}", cwd=wt, env=env, timeout=1800)
         meta["demo_unchanged_rc"] = rc0
@@ -82,6 +89,7 @@ def main():
         os.makedirs(d, exist_ok=True)
         shutil.copy(patch, os.path.join(d, "patch.diff"))
         shutil.copy(demo, os.path.join(d, "demo.py"))
+        shutil.rmtree(ddir, ignore_errors=True)
         with open(os.path.join(d, "meta.json"), "w") as f:
             json.dump(meta, f, indent=1)
         sh(f"git -C /repo worktree remove --force {wt}")
